@@ -31,10 +31,14 @@ import (
 	v2 "mosn.io/mosn/pkg/config/v2"
 	"mosn.io/mosn/pkg/metrics"
 	"mosn.io/mosn/pkg/protocol"
+	"mosn.io/mosn/pkg/protocol/xprotocol"
+	"mosn.io/mosn/pkg/protocol/xprotocol/bolt"
 	"mosn.io/mosn/pkg/proxy"
 	"mosn.io/mosn/pkg/router"
+	xstream "mosn.io/mosn/pkg/stream/xprotocol"
 	"mosn.io/mosn/pkg/types"
 	"mosn.io/mosn/pkg/upstream/cluster"
+	"mosn.io/pkg/buffer"
 	"mosn.io/pkg/variable"
 	"verif/e2e"
 	"verif/gate"
@@ -215,6 +219,172 @@ func runTmo(casesPath, tracePath string) {
 	})
 	vh.Must(err, "tmo cases")
 	fmt.Printf("c17 tmo cases=%d\n", n)
+}
+
+// ---------------------------------------------------------------- mode bolt (protocol-supplied timeout, end to end)
+
+// boltPeer reads bolt frames from a connection.
+type boltPeer struct {
+	c     net.Conn
+	buf   buffer.IoBuffer
+	proto api.XProtocol
+}
+
+func newBoltPeer(c net.Conn) *boltPeer {
+	return &boltPeer{c: c, buf: buffer.NewIoBuffer(4096), proto: (&bolt.XCodec{}).NewXProtocol(context.Background())}
+}
+
+// next returns the next complete frame (blocking up to d).
+func (b *boltPeer) next(d time.Duration) (interface{}, error) {
+	tmp := make([]byte, 4096)
+	for {
+		if b.buf.Len() > 0 {
+			f, err := b.proto.Decode(context.Background(), b.buf)
+			if err != nil {
+				return nil, err
+			}
+			if f != nil {
+				return f, nil
+			}
+		}
+		if d > 0 {
+			b.c.SetReadDeadline(time.Now().Add(d))
+		}
+		n, err := b.c.Read(tmp)
+		if n > 0 {
+			b.buf.Write(tmp[:n])
+		}
+		if err != nil && n == 0 {
+			return nil, err
+		}
+	}
+}
+
+func (b *boltPeer) send(frame interface{}) error {
+	out, err := b.proto.Encode(context.Background(), frame)
+	if err != nil {
+		return err
+	}
+	_, err = b.c.Write(out.Bytes())
+	return err
+}
+
+func runBolt(casesPath, tracePath string) {
+	if !vh.HooksCompiled() {
+		vh.Must(fmt.Errorf("built without -tags verif"), "hooks")
+	}
+	// what mosn's main package does at start-up for the xprotocol family
+	xprotocol.RegisterXProtocolAction(xstream.NewConnPool, xstream.NewStreamFactory, func(codec api.XProtocolCodec) {})
+	vh.Must(xprotocol.RegisterXProtocolCodec(&bolt.XCodec{}), "register bolt")
+	tmp, _ := os.MkdirTemp("", "c17-")
+	defer os.RemoveAll(tmp)
+	// bolt upstream: answers every request with a success response
+	ln, err := net.Listen("tcp", "127.0.0.1:0")
+	vh.Must(err, "listen")
+	var served int64
+	go func() {
+		for {
+			c, err := ln.Accept()
+			if err != nil {
+				return
+			}
+			go func() {
+				defer c.Close()
+				p := newBoltPeer(c)
+				for {
+					f, err := p.next(0)
+					if err != nil {
+						return
+					}
+					if req, ok := f.(*bolt.Request); ok {
+						atomic.AddInt64(&served, 1)
+						if p.send(bolt.NewRpcResponse(uint32(req.GetRequestId()), bolt.ResponseStatusSuccess, nil, nil)) != nil {
+							return
+						}
+					}
+				}
+			}()
+		}
+	}()
+	laddr := e2e.FreeAddr()
+	clusters := e2e.BuildClusters([]e2e.ClusterSpec{{Name: "up", Hosts: []string{ln.Addr().String()}}})
+	lst := e2e.BuildListener(e2e.ListenerSpec{Name: "c17", Addr: laddr, Downstream: "X", Upstream: "X", SubProto: "bolt",
+		Routes: []e2e.RouteSpec{{Prefix: "/", Cluster: "up"}}})
+	m := e2e.StartMosn(e2e.BuildConfig([]v2.Listener{lst}, clusters, e2e.ScratchLog(tmp)))
+	defer m.Close()
+	vh.Must(e2e.WaitListen(laddr, 8*time.Second), "mosn listener")
+	tr := vh.NewTrace(tracePath)
+	defer tr.Close()
+	var tmu sync.Mutex
+	lastG, lastT, nT := int64(-1), int64(-1), 0
+	vh.Sink(func(name string, kv []interface{}) {
+		if name == "ds.timeout" {
+			tmu.Lock()
+			lastG, lastT = kv[1].(int64), kv[2].(int64)
+			nT++
+			tmu.Unlock()
+		}
+	})
+	defer vh.Sink(nil)
+	conn, err := net.DialTimeout("tcp", laddr, time.Second)
+	vh.Must(err, "dial proxy")
+	cl := newBoltPeer(conn)
+	id := uint32(0)
+	n := 0
+	err = vh.ReadCases(casesPath, func(raw json.RawMessage) error {
+		var ac actCase
+		if err := json.Unmarshal(raw, &ac); err != nil {
+			return err
+		}
+		if ac.Fam != "tmo" {
+			return nil
+		}
+		var c tmoCase
+		if err := json.Unmarshal(ac.C, &c); err != nil {
+			return err
+		}
+		if c.Vt != -1 || c.Vg == -2 { // bolt carries one timeout field, an integer
+			return nil
+		}
+		r := v2.Router{}
+		r.Match = v2.RouterMatch{Headers: []v2.HeaderMatcher{{Name: "service", Value: ".*", Regex: true}}}
+		r.Route = v2.RouteAction{RouterActionConfig: v2.RouterActionConfig{ClusterName: "up"}, Timeout: ms(c.Rg)}
+		if c.Rt != 0 {
+			r.Route.RetryPolicy = &v2.RetryPolicy{RetryTimeout: ms(c.Rt)}
+		}
+		setRouters(routerConfig(v2.VirtualHost{Routers: []v2.Router{r}}, level{}, level{}))
+		h := protocol.CommonHeader{"service": "svc"}
+		if c.Hg != -1 {
+			h[types.HeaderGlobalTimeout] = tmoVal(c.Hg)
+		}
+		if c.Ht != -1 {
+			h[types.HeaderTryTimeout] = tmoVal(c.Ht)
+		}
+		id++
+		req := bolt.NewRpcRequest(id, h, buffer.NewIoBufferString("x"))
+		req.Timeout = 0 // no timeout supplied by the protocol
+		if c.Vg != -1 {
+			req.Timeout = int32(c.Vg)
+		}
+		tmu.Lock()
+		before := nT
+		tmu.Unlock()
+		vh.Must(cl.send(req), "send bolt request")
+		f, err := cl.next(20 * time.Second)
+		vh.Must(err, "bolt response")
+		resp, ok := f.(*bolt.Response)
+		tmu.Lock()
+		g, t, cnt := lastG, lastT, nT-before
+		tmu.Unlock()
+		if !ok || resp.GetStatusCode() != uint32(bolt.ResponseStatusSuccess) || cnt != 1 {
+			vh.Must(fmt.Errorf("response ok=%v timeout events=%d", ok, cnt), "bolt timeout case did not complete")
+		}
+		tr.Emit(vh.Ev{"ev": "tmo", "c": ac.C, "g": g, "t": t, "via": "bolt"})
+		n++
+		return nil
+	})
+	vh.Must(err, "bolt cases")
+	fmt.Printf("c17 bolt cases=%d served=%d\n", n, atomic.LoadInt64(&served))
 }
 
 // ---------------------------------------------------------------- recording upstream of mode act
@@ -1002,7 +1172,7 @@ func nonNil(x []uint32) []uint32 {
 var _ api.Route
 
 func main() {
-	mode := flag.String("mode", "act", "tmo|act|retry")
+	mode := flag.String("mode", "act", "tmo|act|bolt|retry")
 	cases := flag.String("cases", "", "cases file")
 	out := flag.String("trace", "", "trace output")
 	res := flag.String("results", "", "per-case result lines (retry)")
@@ -1017,6 +1187,8 @@ func main() {
 		if *res != "" {
 			vh.NewOut(*res).Close()
 		}
+	case "bolt":
+		runBolt(*cases, *out)
 	case "retry":
 		runRetry(*cases, *out, *res, *shard, *shards)
 	default:
